@@ -500,6 +500,11 @@ Inductive cin :=
 | ITable (md mdc : bytes) (byrows : bool) (rkeys ckeys : list key) (h : list tev)
   (* a TableAggregator fed a history of samples, reads and trims; the final OrderedRows (byrows)
      or OrderedColumns with sorter md is observed; mdc is the column sorter TTrimKeep uses *)
+| IGroups (md : bytes) (skind : nat) (gs : list (list bytes * key)) (hs : list (list ev))
+  (* AccumulatingGroup.Groups (rare reduce) with one or more group columns: group i has the column
+     values [fst] (and, for the library calls made on its ordering key, the oracle key [snd]); the
+     same samples arrive in each of the orders hs, with reads in between; the final read of each is
+     observed.  skind 0: no --sort expression; 1: --sort {sum}; 2: --sort "{1} {0}" *)
 | ICollect (md : bytes) (bykey : bool) (keys : list key) (h : list ev).
   (* a collector fed by a history of samples with intermediate reads (rendered frames); the final
      read is observed. bykey = false: items (key, total) through a NameValueSorter (counters,
@@ -550,7 +555,7 @@ Definition model0 (c : cin) : cout :=
               OSort (repeat (map fst (firstn limit sorted)) reps)
           end
       end
-  | ICollect _ _ _ _ | ITable _ _ _ _ _ _ => OPanic   (* normalised away, see [norm] *)
+  | ICollect _ _ _ _ | ITable _ _ _ _ _ _ | IGroups _ _ _ _ => OPanic   (* normalised away, see [norm] *)
   end.
 
 Definition list_nat_eqb := list_eqb Nat.eqb.
@@ -709,7 +714,7 @@ Definition C13_check0 (c : cin) (o : cout) : bool :=
 (* the guard of C13_check_sound: the key set of a case lies in a state-free domain *)
 Definition in_domain0 (c : cin) : bool :=
   match c with
-  | ICollect _ _ _ _ | ITable _ _ _ _ _ _ => false
+  | ICollect _ _ _ _ | ITable _ _ _ _ _ _ | IGroups _ _ _ _ => false
   | IAx md its | ISeq md its _ | ISort md its _ | ITop md its _ _ =>
       match parse_sort md with
       | None => true
@@ -720,7 +725,7 @@ Definition in_domain0 (c : cin) : bool :=
 (* well-formed cases: distinct key names, indices in range, arrangements are arrangements *)
 Definition case_wf0 (c : cin) : bool :=
   match c with
-  | ICollect _ _ _ _ | ITable _ _ _ _ _ _ => false
+  | ICollect _ _ _ _ | ITable _ _ _ _ _ _ | IGroups _ _ _ _ => false
   | ITop _ its _ _ => key_names_distinct its
   | IAx _ its => key_names_distinct its
   | ISeq _ its ps =>
@@ -823,6 +828,28 @@ Definition table_view (mdc : bytes) (byrows : bool) (rkeys ckeys : list key) (h 
 Definition view_items (byrows : bool) (rkeys ckeys : list key) (v : list (nat * Z)) : list item :=
   map (fun it : nat * Z => (key_at (if byrows then rkeys else ckeys) (fst it), snd it)) v.
 
+(* ---------------------------------------------------------------- reduce: groups with several columns *)
+(* accumulator.go buildGroupKey: the column values joined by the array separator (0x00) *)
+Fixpoint join0 (parts : list bytes) : bytes :=
+  match parts with
+  | [] => []
+  | [p] => p
+  | p :: r => p ++ 0%N :: join0 r
+  end.
+(* the text Groups hands to the NameSorter for a group (HEAD): without a sort expression the whole
+   joined key - one piece of text, NOT column by column; with --sort {sum} the decimal total; with
+   --sort "{1} {0}" the second column, a space, the first column *)
+Definition rekey (k : key) (name : bytes) : key := mkkey name (kfv k) (kfmt k) (kdates k).
+Definition group_item (skind : nat) (h : list ev) (ig : nat * (list bytes * key)) : item :=
+  let '(i, (parts, k)) := ig in
+  match skind with
+  | O => (rekey k (join0 parts), 0%Z)
+  | S O => (numkey (total h i), 0%Z)
+  | _ => (rekey k (nth 1 parts [] ++ 32%N :: nth 0 parts []), 0%Z)
+  end.
+Definition group_items (skind : nat) (gs : list (list bytes * key)) (h : list ev) : list item :=
+  map (group_item skind h) (combine (seq 0 (List.length gs)) gs).
+
 (* a collector case is the sort of its final items from one arrangement *)
 Definition norm (c : cin) : cin :=
   match c with
@@ -830,6 +857,9 @@ Definition norm (c : cin) : cin :=
   | ITable md mdc byrows rkeys ckeys h =>
       let v := table_view mdc byrows rkeys ckeys h in
       ISort md (view_items byrows rkeys ckeys v) [seq 0 (List.length v)]
+  | IGroups md skind gs hs =>
+      (* the same samples in every arrival order (case_wf): one final data set, one arrangement each *)
+      ISort md (group_items skind gs (hd [] hs)) (map (fun _ => seq 0 (List.length gs)) hs)
   | _ => c
   end.
 
@@ -870,6 +900,9 @@ Definition case_wf (c : cin) : bool :=
   case_wf0 (norm c) &&
   match c with
   | ICollect _ _ keys h => forallb (sampled h) (seq 0 (List.length keys))
+  | IGroups _ _ gs hs =>
+      forallb (fun h => forallb (fun i => sampled h i && (total h i =? total (hd [] hs) i)%Z)
+                                (seq 0 (List.length gs))) hs
   | _ => true
   end.
 
